@@ -236,15 +236,26 @@ var frame2Outside = []string{
 
 func init() {
 	tmpl := "frame templates produced by the real Writer: {block checksum} x {content checksum} x {content size} on two tiny stored blocks and on a 40-byte compressible input, plus empty frame, empty ReadFrom, legacy (1 and 2 blocks), two compressed blocks"
-	checkDefs["C06"] = &CheckDef{Property: "C06", Jobs: truncJobs,
+	concR := func(tier string, dmg int) []*Job {
+		var jobs []*Job
+		for _, j := range concReaderJobs(tier) {
+			if j.Params["dmg"] == dmg && j.Params["reuse"] == 0 {
+				jobs = append(jobs, j)
+			}
+		}
+		return jobs
+	}
+	checkDefs["C06"] = &CheckDef{Property: "C06", Jobs: func(tier string) []*Job { return append(truncJobs(tier), concR(tier, 1)...) },
 		Bounds: func(string) []string {
-			return []string{tmpl, "every cut position 1..len-1 of every template (position chosen symbolically, enumerated by the solver); read back through Read (>= block, 3-byte buffers) and WriteTo, with 4 source fragmentation modes; input bytes symbolic"}
+			return []string{tmpl, "every cut position 1..len-1 of every template (position chosen symbolically, enumerated by the solver); read back through Read (>= block, 3-byte buffers) and WriteTo, with 4 source fragmentation modes; input bytes symbolic", "concurrent Reader (ConcurrencyOption(2)): a two-block frame with both checksums cut at 10 (thorough: every) position(s), Read and WriteTo, under every schedule with at most 2 delays"}
 		}, Outside: frame2Outside, Assumptions: frameAssumptions,
 		Filter: func(id string) bool { return hasPrefix(id, "trunc-") || hasPrefix(id, "no-panic") || hasPrefix(id, "unwind") }}
 	checkDefs["C05"] = &CheckDef{Property: "C05",
-		Jobs: func(tier string) []*Job { return append(mutateJobs(tier), streamJobs(tier)...) },
+		Jobs: func(tier string) []*Job {
+			return append(append(mutateJobs(tier), streamJobs(tier)...), concR(tier, 2)...)
+		},
 		Bounds: func(tier string) []string {
-			return []string{tmpl + " (concrete content for the mutation family)", "mutations: every byte position x {8 single-bit flips, 0x00, 0xFF, complement} (thorough: all 255 other values), and block duplication; arbitrary streams: 0..8 (thorough ..11) fully symbolic bytes after nothing / frame magic / legacy magic / skippable magic / a valid header, read through Read and WriteTo", "oracle: reference parser on exactly the bytes the Reader consumed (concatenated legacy frames and the documented kernel size trailer accepted)"}
+			return []string{tmpl + " (concrete content for the mutation family)", "mutations: every byte position x {8 single-bit flips, 0x00, 0xFF, complement} (thorough: all 255 other values), and block duplication; arbitrary streams: 0..8 (thorough ..11) fully symbolic bytes after nothing / frame magic / legacy magic / skippable magic / a valid header, read through Read and WriteTo", "concurrent Reader (ConcurrencyOption(2)): one byte of a two-block frame with both checksums complemented with 0x55 at 10 (thorough: every) position(s), under every schedule with at most 2 delays", "oracle: reference parser on exactly the bytes the Reader consumed (concatenated legacy frames and the documented kernel size trailer accepted)"}
 		}, Outside: frame2Outside, Assumptions: append([]string{"mutation values are enumerated, and frame content is concrete in the mutation family: a symbolic byte under XXH32 comparisons only poses collision searches the solvers do not finish"}, frameAssumptions...),
 		Filter: func(id string) bool { return hasPrefix(id, "accept-") }}
 	checkDefs["C07"] = &CheckDef{Property: "C07",
